@@ -40,6 +40,32 @@ def _run(payload, sub):
     return out
 
 
+def _fail_then_run(payload, sub):
+    """One long-lived process: a run fails with an exception that the caller keeps (so the failed run's generators and
+    its open .active file are NOT finalised yet), the healthy flow is run again at once, and only then is the failed run
+    garbage collected.  The schedule dimension here is *when* the abandoned generators are finalised."""
+    import gc
+    kept = None
+    try:
+        cpcommon.build_and_run(payload['spec'], sub, faults=payload.get('faults'))
+        failed = False
+    except Exception as e:  # noqa
+        kept = e            # keeps the traceback -> frames -> suspended generators -> open file object alive
+        failed = True
+    sub.log('first-run-failed', failed)
+    second = None
+    second_exc = None
+    try:
+        second = cpcommon.build_and_run(payload['spec'], sub)
+    except Exception as e:  # noqa
+        from ..core.ctx import describe_exc
+        second_exc = describe_exc(e)
+    kept = None
+    gc.collect()
+    gc.collect()
+    return {'failed': failed, 'second': second, 'second_exc': second_exc}
+
+
 class C08(Prop):
     ID = 'C08'
     TITLE = 'An interrupted checkpoint is never used'
@@ -58,7 +84,7 @@ class C08(Prop):
                     'stub': ['io.FileIO subclass counting/aborting raw writes', 'os.rename/unlink/makedirs wrappers', 'process death = os._exit(77) in a forked child']}
     PROBES = ['crash-between-close-and-rename', 'crash-inside-last-resource', 'torn-write-landed', 'final-file-present-after-fault',
               'two-checkpoints-first-complete-second-not', 'fault-not-reached', 'io-error-at-rename', 'io-error-at-close',
-              'recovery-from-complete-checkpoint', 'recovery-from-scratch', 'empty-resource', 'sweep-complete']
+              'recovery-from-complete-checkpoint', 'recovery-from-scratch', 'empty-resource', 'sweep-complete', 'healthy-run-before-failed-run-was-finalised']
     TIERS = {'quick': dict(runs=700, wall=100, run_wall=90),
              'thorough': dict(runs=1500, wall=1500, run_wall=600)}
     SHRINK_FROZEN = ('fields',)
@@ -93,8 +119,12 @@ class C08(Prop):
                 ops.append({'op': 'delete'})      # faults are only interesting while a checkpoint is being written
             if r < 0.45:
                 ops.append({'op': 'crash', 'kf': round(rng.random(), 4), 'when': rng.choice(WHENS), 'frac': round(rng.random(), 3)})
-            elif r < 0.70:
+            elif r < 0.60:
                 ops.append({'op': 'fail', 'fault': self._gen_fault(rng, spec)})
+            elif r < 0.70:
+                f = self._gen_fault(rng, spec)
+                if f['kind'] != 'ioerror':
+                    ops.append({'op': 'fail_then_run', 'fault': f})
             elif r < 0.90:
                 ops.append({'op': 'run'})
             else:
@@ -301,6 +331,25 @@ class C08(Prop):
                 do_crash(k, op['when'], op.get('frac', 0.5), label)
             elif op['op'] == 'fail':
                 do_fail(op['fault'], label)
+            elif op['op'] == 'fail_then_run':
+                fault = op['fault']
+                before = present()
+                os.chdir(work)
+                faults = {'step': fault} if fault['kind'] == 'step' else {'source': fault}
+                r = ctx.subrun(_fail_then_run, {'spec': spec, 'faults': faults}, setup=_setup(None, bufsize))
+                if r['status'] != 'ok':
+                    from ..core.ctx import HarnessError
+                    raise HarnessError('fail_then_run sub-run: %s' % json.dumps(r)[:500])
+                v = r['value']
+                if v['failed']:
+                    ctx.probe('healthy-run-before-failed-run-was-finalised')
+                    ctx.nt('fail_then_run', fault['kind'], str(fault.get('row')), sorted(before.items()), total, spec['links'])
+                    if v['second_exc'] is not None:
+                        ctx.violation('recovery-raised', v['second_exc']['type'], '%s: the healthy run right after a failed one (same process, failed run not yet finalised) raised %s' % (
+                            label, json.dumps(v['second_exc'])[:500]), point=fault)
+                    if v['second']['rows'] != ref['rows']:
+                        ctx.violation('recovery:rows', 'differ', '%s: the healthy run right after a failed one (same process) returned different rows' % label, point=fault)
+                check_dir('%s (failed run finalised only after the next run had completed)' % label, fault)
             elif op['op'] == 'sweep':
                 # every seam op of the from-scratch run x every crash mode, and an io-error at every op; each followed by a recovery run
                 for k in range(1, K + 1):
